@@ -113,6 +113,8 @@ impl EncoderWork {
     }
 
     pub(crate) fn reset_received(&mut self) {
+        #[cfg(feature = "verif-hooks")]
+        self.shards.verif_poison();
         self.original_received_count = 0;
     }
 
